@@ -12,6 +12,6 @@ HARNESSES = [
          bounds="2 chunks x <=2 bytes, 2 reads of size 0..7, declared length 0..6, monitor attached before any read"),
     dict(name="split.c3r3", src="C14/split.c", defines=["CH=3", "MAXCH=2", "RD=3"], unwind=11, units=U, timeout=2400, mem_gb=8, tier="thorough",
          bounds="3 chunks x <=2 bytes, 3 reads of size 0..9, declared length 0..8"),
-    dict(name="decoder.new", src="C14/split.c", entry="harness_new", unwind=4, units=U, timeout=120,
+    dict(name="decoder.new", src="C14/split.c", entry="harness_new", unwind=4, leak=True, units=U, timeout=120,
          bounds="lha_decoder_new with a 4-byte private area and 3-byte output buffer"),
 ]
